@@ -409,3 +409,10 @@ PROPS['C14']['stubs'] = list(PROPS['C14']['stubs']) + ['EXEC conditions (C14.exe
 PROPS['C14']['outside'] = ['HTTP/FTP readers', 'default port chosen for https (not part of the statement)', 'file:// URLs that name a .zip (not pinned down by the documentation)',
                            'unreadable files on a real file system (the process runs as root; covered on the model only)']
 MANIFEST_TEXT['C14']['technique'] += '; the same shapes on real directories / real ZIP files, concretely per solver-explored shape (EXEC)'
+
+PROPS['C13']['modules'] = PROPS['C13']['modules'] + ['harness.hcompile']
+PROPS['C13']['files'] = list(PROPS['C13']['files']) + ['pysmi/compiler.py']
+PROPS['C13']['functions'] = list(PROPS['C13']['functions']) + ['pysmi.compiler.MibCompiler.compile (writeMibs / dryRun hand-over to the writer)']
+
+PROPS['C04']['modules'] = PROPS['C04']['modules'] + ['harness.x15']
+PROPS['C07']['modules'] = PROPS['C07']['modules'] + ['harness.c08_imports']          # "every module reachable through the IMPORTS ... has a status" starts with MibInfo.imported
